@@ -586,3 +586,51 @@ def inline_pure_lets(stmts):
         out.append(s_)
         i += 1
     return out
+
+
+SINK_COUNT = [0]
+
+
+def sink_let_if(node):
+    """`let x = if c { ..; a } else { ..; b }; S(x)` where S is the very next statement and holds the only use of x
+    ->  `if c { ..; S(a) } else { ..; S(b) }`   (behaviour-preserving: the branches are evaluated at the same point, S once)."""
+    from common import walk
+    if isinstance(node, list):
+        return [sink_let_if(x) for x in node]
+    if not isinstance(node, dict):
+        return node
+    node = {k: (sink_let_if(v) if isinstance(v, (dict, list)) else v) for k, v in node.items()}
+    if node.get("t") != "Block":
+        return node
+    st = node["stmts"]
+    out = []
+    i = 0
+    while i < len(st):
+        s_ = st[i]
+        nxt = st[i + 1] if i + 1 < len(st) else None
+        if s_["t"] == "Local" and s_["pat"]["t"] == "PIdent" and not s_["pat"]["mut"] and not s_["pat"]["by_ref"] and s_.get("else") is None and \
+                isinstance(s_.get("init"), dict) and s_["init"].get("t") == "If" and s_["init"].get("else") is not None and \
+                s_["init"]["else"].get("t") == "BlockExpr" and nxt is not None and nxt["t"] == "ExprStmt":
+            name = s_["pat"]["name"]
+            uses_next = _count_uses(nxt, name)
+            uses_later = sum(_count_uses(x, name) for x in st[i + 2:])
+            then_b, else_b = s_["init"]["then"], s_["init"]["else"]["block"]
+
+            def tail(b):
+                ss = b["stmts"]
+                if ss and ss[-1]["t"] == "ExprStmt" and not ss[-1]["semi"]:
+                    return ss[:-1], ss[-1]["expr"]
+                return None
+            tt, te = tail(then_b), tail(else_b)
+            rebinds = any(n.get("t") == "PIdent" and n["name"] == name for n in walk(nxt))
+            if uses_next == 1 and uses_later == 0 and tt and te and not rebinds and strip_paren(s_["init"]["cond"]).get("t") != "Let":
+                def mk(pre, val):
+                    return {"t": "Block", "sp": nxt["sp"], "stmts": pre + [_subst(nxt, {name: val})]}
+                new_if = {**s_["init"], "then": mk(tt[0], tt[1]), "else": {**s_["init"]["else"], "block": mk(te[0], te[1])}}
+                out.append({"t": "ExprStmt", "sp": s_["sp"], "expr": new_if, "semi": nxt["semi"]})
+                SINK_COUNT[0] += 1
+                i += 2
+                continue
+        out.append(s_)
+        i += 1
+    return {**node, "stmts": out}
